@@ -1,7 +1,7 @@
 """C20 - ARM/RISC-V build attributes and ARM unwind tables are decoded exactly."""
 from symx.api import H
 from spec import enc, ehabi
-from harness.elfkit import stream_length, elf_object
+from harness.elfkit import stream_length, elf_object, shdr, phdr
 
 PROPERTY = 'C20'
 ASSUMPTIONS = [
@@ -61,7 +61,7 @@ class _Sec:
     def __init__(self, stream, off, size):
         self.stream = stream
         self.name = '.ARM.exidx'
-        self._h = {'sh_offset': off, 'sh_size': size}
+        self._h = shdr(sh_type='SHT_ARM_EXIDX', sh_flags=0x82, sh_offset=off, sh_size=size, sh_addralign=4)
 
     def __getitem__(self, k):
         return self._h[k]
@@ -244,10 +244,10 @@ def h_attributes(ctx):
     data, want = _gen_section(ctx, arch, cfg['spec'], little)
     image = [0xEE] * pad + data + [0xEE] * 3
     st = ctx.stream(image)
-    hdr = {'sh_offset': pad, 'sh_size': len(data), 'sh_flags': 0, 'sh_type': 'SHT_ARM_ATTRIBUTES', 'sh_addralign': 1}
+    hdr = shdr(sh_offset=pad, sh_size=len(data), sh_flags=0, sh_type='SHT_ARM_ATTRIBUTES', sh_addralign=1)
     cls = SEC.ARMAttributesSection if arch == 'arm' else SEC.RISCVAttributesSection
     sec = cls(hdr, '.attributes', elf_object(ctx, st, 32, little, 'EM_ARM' if arch == 'arm' else 'EM_RISCV'))
-    subs = ctx.drain(sec.iter_subsections())
+    subs = ctx.walk(lambda: sec.iter_subsections())
     ctx.outcome('ok')
     ctx.check_eq('subsections/count', len(subs), len(want))
     if len(subs) != len(want):
@@ -255,7 +255,7 @@ def h_attributes(ctx):
     for i, (s, w) in enumerate(zip(subs, want)):
         ctx.check_eq('subsection/vendor', s['vendor_name'], w['vendor'])
         ctx.check_eq('subsection/length', s['length'], w['length'])
-        sss = ctx.drain(s.iter_subsubsections())
+        sss = ctx.walk(lambda: s.iter_subsubsections())
         ctx.check_eq('subsubsections/count', len(sss), len(w['subsubs']))
         if len(sss) != len(w['subsubs']):
             return
@@ -264,7 +264,7 @@ def h_attributes(ctx):
             ctx.check_eq('subsub/length', ss.header.value, ws['length'])
             if ws['scope'] != 1:
                 ctx.check_eq('subsub/numbers', ss.header.extra, ws['numbers'])
-            attrs = ctx.drain(ss.iter_attributes())
+            attrs = ctx.walk(lambda: ss.iter_attributes())
             ctx.check_eq('attributes/count', len(attrs), len(ws['attrs']))
             if len(attrs) != len(ws['attrs']):
                 return
